@@ -88,6 +88,7 @@ class Exec:
         self.kw_empty = z3.Const("kw_empty", Obj)
         self.hashseed = z3.Int("hashseed")
         self.current_info: Optional[FuncInfo] = None
+        self.inline_depth = 0
         self.call_depth = 0
         self.used_assumptions: set = set()
         self.opaque_calls: set = set()
@@ -701,6 +702,13 @@ class Exec:
         return out
 
     def getattr_(self, v: Any, name: str, st: State, node: Any = None) -> List[Tuple[State, Any]]:
+        if isinstance(v, Builtin) and v.name == "super_proxy":
+            recv, cls_ = v.bound
+            for c in self.repo.mro(cls_)[1:]:
+                ci = self.repo.classes.get(c)
+                if ci and name in ci.methods:
+                    return [(st, Fn(ci.methods[name], recv, c))]
+            raise Unsupported(f"super().{name}: not found above {cls_}")
         if isinstance(v, Mod):
             return [(st, self.mod_attr(v, name))]
         if isinstance(v, Cls):
@@ -1306,6 +1314,14 @@ class Exec:
         if isinstance(node.func, ast.Name) and node.func.id == "cast" and len(node.args) == 2 \
                 and "cast" not in st.env:
             return self.ev(node.args[1], st)      # typing.cast(T, x) is the identity; T is not evaluated
+        if isinstance(node.func, ast.Name) and node.func.id == "super" and not node.args and not node.keywords \
+                and "super" not in st.env and "self" in st.env:
+            # zero-argument super() inside a method: attribute lookup continues after the defining class in the MRO
+            fi_ = st.env.get("__func__")
+            cls_ = getattr(fi_, "cls", None) or st.env.get("__via_cls__")
+            if cls_ is None:
+                raise Unsupported("super() outside a method")
+            return [(st, Builtin("super_proxy", (st.env["self"], cls_)))]
         for s, f in self.ev(node.func, st):
             if isinstance(f, Raised):
                 out.append((s, f))
@@ -1394,8 +1410,19 @@ class Exec:
         if con is not None:
             return self.contracts.apply(self, con, info, f.bound, pos, kws, kwrest, st)
         if con is None and not self.contracts.is_transparent(info):
-            raise Unsupported(f"call of {info.relpath}:{info.qualname} which has neither a contract nor "
-                              f"the transparent mark")
+            # a small straight-line helper without a contract (typically introduced by a refactoring) is simply
+            # executed in place: exact semantics, no assumption
+            small = (len(info.node.body) <= 10 and self.inline_depth < 3 and
+                     not any(isinstance(n, (ast.For, ast.While, ast.Try, ast.Yield, ast.YieldFrom, ast.With, ast.Lambda))
+                             for n in ast.walk(info.node)))
+            if not small:
+                raise Unsupported(f"call of {info.relpath}:{info.qualname} which has neither a contract nor "
+                                  f"the transparent mark")
+            self.inline_depth += 1
+            try:
+                return self.inline(info, f.bound, pos, kws, kwrest, st, via_cls=f.via_cls)
+            finally:
+                self.inline_depth -= 1
         return self.inline(info, f.bound, pos, kws, kwrest, st, via_cls=f.via_cls)
 
     def bind_params(self, info: FuncInfo, bound: Any, pos: List[Any], kws: Dict[str, Any],
